@@ -313,7 +313,7 @@ pub fn nt_lcm_none_panics<const B: usize, const L: usize>(nd: &mut Nd) {
     nd.assume(a.lcm(b).is_none());
     cov!(nd, "before-call", true);
     let _ = Integer::lcm(&a, &b);
-    cov!(nd, "after-call", true);
+    cov!(nd, "returned", true);
 }
 
 /// PrimInt byte-order facades at widths that are a multiple of 8: swap_bytes reverses the BYTES base-256 digits,
